@@ -21,7 +21,7 @@ class C11(core.Check):
                   "The models are tied to the code by the correspondence run on fake sockets that record close(); real-socket run in thorough keeps every accepted socket object alive so GC cannot hide a leak.")
     level_note = ("Trusted: Lean kernel + standard axioms; translator (handshake outcome tables, loop handlers); the fake socket's close() bookkeeping; "
                   "removeIx(close=False) (a deliberate hand-over of the socket to the caller) is outside the modelled histories.")
-    quick_n = 1200
+    quick_n = 2000
     thorough_n = 20000
     rule = ("cases: (srv tls ops) with ops accept-peer(ca, scripts) / service / transmit / removeIx / close / reopen, 1-4 addresses, re-connections from an address already in the table "
             "(also twice within one service pass), TLS handshakes left pending, aborted, completing late; always ends with close. (cli tls ops) reopen / close / serviceConnect with every connect_ex result and "
@@ -44,6 +44,9 @@ class C11(core.Check):
             ("srv", True, [("conn", 1, [], [], []), ("svc",), ("conn", 1, [], [], [("ok",)]), ("svc",), ("close",)]),
             ("srv", True, [("conn", 1, [], [], [("ok",)]), ("svc",), ("conn", 1, [], [], [("f", W), ("ok",)]), ("svc",), ("svc",), ("close",)]),
             ("srv", True, [("conn", 1, [], [], [("f", errno.ECONNRESET)]), ("conn", 2, [], [("f", errno.EBADF)], [("ok",)]), ("svc",), ("rm", 2), ("reopen",), ("conn", 2, [], [], []), ("svc",), ("close",)]),
+            # accepted sockets whose peer reset before accept, and sockets still waiting in .axes when close() comes
+            ("srv", False, [("dconn", 1), ("conn", 2, [], [], []), ("svc",), ("close",)]),
+            ("srv", True, [("conn", 1, [], [], []), ("dconn", 2), ("conn", 3, [], [], [("ok",)]), ("svc",), ("dconn", 3), ("close",)]),
             ("cli", False, [("reopen",), ("connect", errno.EINPROGRESS, None), ("connect", errno.ECONNREFUSED, None), ("connect", 0, None), ("reopen",), ("close",)]),
             ("cli", True, [("connect", 0, ("f", W)), ("connect", 0, ("f", errno.ECONNRESET)), ("connect", 0, ("ok",)), ("reopen",), ("close",)]),
             ("cli", True, [("reopen",), ("connect", 0, ("f", 1010)), ("connect", 0, None), ("close",)]),
